@@ -170,10 +170,11 @@ COMP_TRUSTED = [
 def composite_unit(prop, Unit, Entry, tier='quick'):
     ents = []
     import os
-    if prop == 'C01' and (tier == 'thorough' or os.environ.get('VERIF_TRY_HASH64')) and os.environ.get('VERIF_HASH64_CLASSES'):
-        # full-width hash_t for the classes that are narrowed to 16 bits in the quick tier (only those validated to finish)
+    h64 = os.environ.get('VERIF_HASH64_CLASSES', 'Mul,MultiArgFunction,FiniteSet' if tier == 'thorough' else '').split(',')
+    if prop == 'C01' and h64 != ['']:
+        # thorough tier: full-width hash_t for the classes that are narrowed to 16 bits in the quick tier (validated: 340-700 s each; Add does not finish)
         for cls, nm in ((10, 'Mul'), (11, 'MultiArgFunction'), (12, 'FiniteSet'), (5, 'Add')):
-            if nm in os.environ['VERIF_HASH64_CLASSES'].split(','):
+            if nm in h64:
                 ents.append(Entry('h_comp_c01', defines={'CLS': cls, 'CLSNAME': '"%s"' % nm}, route='B', timeout=3400, mem_gb=10, unwind=8, label='h_comp_c01_%s_hash64' % nm,
                                   bounds='full 64-bit hash_t; at most 2 dictionary entries / 3 container elements; any children (6 abstract objects, any sharing)'))
     for cls, nm in ((1, 'Pow'), (2, 'Interval'), (3, 'TwoArgBasic'), (4, 'OneArgFunction'), (5, 'Add'), (6, 'Complement'), (7, 'Contains'), (10, 'Mul'), (11, 'MultiArgFunction'), (12, 'FiniteSet')):
